@@ -1034,10 +1034,12 @@ def _gen_pc_specs(ctx, rng, n_general, n_modal):
         if min(c["k"]) == 0 and not c.get("blockphi"):
             continue
         M, B, K = _physical(c, np.array(c["phi"]))
+        if c.get("blockphi") and rng.random() < 0.5:
+            c = dict(c, d0=None)  # static initial conditions together with rigid-body rows (which must start at zero)
         out.append({"kind": "general", "n": c["n"], "h": c["h"], "order": c["order"], "style": "modal", "nz": 0,
                     "M": M.tolist(), "B": B.tolist(), "K": K.tolist(), "F": c["F"], "d0": c["d0"], "v0": c["v0"],
-                    "static": bool(c["d0"] is None and rng.random() < 0.5), "blockphi": bool(c.get("blockphi")),
-                    "usys": c})
+                    "static": bool(c["d0"] is None and (c.get("blockphi") or rng.random() < 0.5)),
+                    "blockphi": bool(c.get("blockphi")), "usys": c})
     return out
 
 
@@ -1129,6 +1131,14 @@ def _corr_pc(ctx, drv):
         vm0 = v0.copy() if v0 is not None else np.zeros(n)
         job = {"s": s, "inp": inp, "sol": sol, "el": el, "rb": rb, "req": [], "cond": 1.0, "M": M, "B": B, "K": K,
                "F": F, "d0": dm0, "v0": vm0}
+        ctx.case(json.dumps(s, sort_keys=True), nontrivial=bool(el) and nt >= 3, branch="pc:order%d" % s["order"])
+        ctx.count("pc:style-" + s["style"])
+        if rb:
+            ctx.count("pc:with-rigid-body-modes")
+        if s["static"]:
+            ctx.count("pc:static-ic")
+            if rb and np.any(F[rb, 0]):
+                ctx.count("pc:static-ic-with-rigid-body-modes")
         if el:
             Mee, Bee, Kee = (X[np.ix_(el, el)] for X in (M, B, K))
             A = _state_matrix(Mee, Bee, Kee)
@@ -1200,12 +1210,6 @@ def _corr_pc(ctx, drv):
             if not e <= tol:
                 bad = (nm, e)
                 break
-        ctx.case(json.dumps(s, sort_keys=True), nontrivial=bool(el) and nt >= 3, branch="pc:order%d" % s["order"])
-        ctx.count("pc:style-" + s["style"])
-        if rb:
-            ctx.count("pc:with-rigid-body-modes")
-        if s["static"]:
-            ctx.count("pc:static-ic")
         if bad:
             ctx.disagree("pc-" + bad[0], j["inp"], {bad[0]: bad[1]}, {"tolerance": tol})
     ctx.sample({"stream": "pc", "worst_error_over_cond": float("%.2e" % worst), "systems": len(jobs)})
@@ -1269,6 +1273,12 @@ def _corr_exp2(ctx, drv):
             ctx.skip("exp2: no dynamic equation")
             continue
         ks, nt = len(kd), F.shape[1]
+        ctx.case(json.dumps(s, sort_keys=True), nontrivial=nt >= 3, branch="exp2:order%d" % s["order"])
+        ctx.count("exp2:style-" + s["style"])
+        if rf:
+            ctx.count("exp2:with-rf")
+        if s["static"] and s["d0"] is None:
+            ctx.count("exp2:static-ic")
         kk_ = np.ix_(kd, kd)
         A = _state_matrix(M[kk_], B[kk_], K[kk_])
         E = np.block([[ts.E_vv, ts.E_vd], [ts.E_dv, ts.E_dd]])
@@ -1323,12 +1333,6 @@ def _corr_exp2(ctx, drv):
             e = float(np.abs(np.asarray(sol.d)[rf] - d[rf]).max() / (np.abs(d[rf]).max() + 1e-300))
             if not e <= 1e-12:
                 bad = ("d-rf", e)
-        ctx.case(json.dumps(s, sort_keys=True), nontrivial=nt >= 3, branch="exp2:order%d" % s["order"])
-        ctx.count("exp2:style-" + s["style"])
-        if rf:
-            ctx.count("exp2:with-rf")
-        if s["static"] and s["d0"] is None:
-            ctx.count("exp2:static-ic")
         if bad:
             ctx.disagree("exp2-" + bad[0], inp, {bad[0]: bad[1]}, {"tolerance": 1e-9})
     ctx.sample({"stream": "exp2", "worst_scaled_error": float("%.2e" % worst), "systems": len(jobs)})
@@ -1356,6 +1360,7 @@ def correspondence(ctx):
            "coupled:with-rigid-body-modes", "coupled:complex-path-rigid-body-recurrence",
            "partc:auto", "partc:with-rb", "partc:with-rf", "partc:slices", "partc:no-slices",
            "pc:order0", "pc:order1", "pc:spec-checked", "pc:with-rigid-body-modes", "pc:static-ic",
+           "pc:static-ic-with-rigid-body-modes",
            "pc:style-modal", "pc:style-skew", "pc:style-sym+skew", "pc:style-sym",
            "exp2:order0", "exp2:order1", "exp2:spec-checked", "exp2:with-rf", "exp2:static-ic",
            "exp2:style-uncoupled", "exp2:style-skew", "exp2:style-sym+skew"]
@@ -1595,6 +1600,39 @@ def _oracle_coupled(s, fails):
                 fails.append({"family": fam, "what": "%s disagrees with SolveExp2 in %s" % (name, nm), "input": inp,
                               "observed": e, "required": "<= %g" % (TOL * cond)})
                 break
+    # static initial conditions (d0 not given): rigid-body rows start at zero, the elastic part in static
+    # equilibrium; reference = the modal route (uncoupled solver, static_ic) mapped through the mode shapes
+    if s["d0"] is None:
+        ode = _ode()
+        qs = _run_impl(dict(t, static=True))
+        v0 = _arr(s["v0"])
+        if not isinstance(qs, str):
+            rs = (phi @ qs.d, phi @ qs.v, phi @ qs.a)
+            runs = [("SolveExp2", lambda: ode.SolveExp2(M, B, K, s["h"], order=s["order"]).tsolve(F, None, v0, True))]
+            if min(s["k"]) > 0 or s.get("blockphi"):
+                runs.append(("SolveUnc-coupled", lambda: ode.SolveUnc(M, B, K, s["h"], order=s["order"]).tsolve(F, None, v0, True)))
+            if min(s["k"]) > 0 or s.get("blockphi"):
+                # (without block mode shapes the physical K, B have no zero rows: rb modes are not detected and
+                # static_ic needs pre_eig, as documented)
+                for name, fn in runs:
+                    try:
+                        with warnings.catch_warnings():
+                            warnings.simplefilter("ignore")
+                            so = fn()
+                    except Exception as e:  # noqa: BLE001
+                        fails.append({"family": "coupled-raises-static-ic-" + name, "what": name + " refuses static_ic",
+                                      "input": inp, "observed": "%s: %s" % (type(e).__name__, str(e)[:80]),
+                                      "required": "a solution"})
+                        continue
+                    ssd = np.abs(rs[0]).max() + s["h"] * np.abs(rs[1]).max() + 1e-300
+                    ssv = np.abs(rs[1]).max() + wmax * ssd + 1e-300
+                    for nm, x, y, sc in (("d", so.d, rs[0], ssd), ("v", so.v, rs[1], ssv)):
+                        e = _note("coupled-static-ic-" + name, _rel(np.asarray(x), y, sc) / cond) * cond
+                        if e > TOL * cond:
+                            fails.append({"family": "static-ic-" + name,
+                                          "what": "%s with static_ic differs from the modal static start in %s" % (name, nm),
+                                          "input": inp, "observed": e, "required": "<= %g" % (TOL * cond)})
+                            break
     # step subdivision on the coupled solvers
     s2 = _subdivide(s)
     var2, _ = _coupled_variants(s2)
